@@ -382,6 +382,37 @@ def build4(w, PRE, MOD, TXF):
         ghost_after={CTX_ASSIGN: [('g_at', 'True'), ('g_id', '%s._id' % stx), ('g_al', '%s._current.modaliases' % stx), ('g_sc', '%s._current.session_config' % stx)]},
         abstract={'match request.input_language:': dict(assigns={'unit_group': 'Obj'}, modifies=MOD + ['CS._savepoints_log'], raises=['CompileError', 'NotImplementedError'])},
         hints={'ghost_out': ['g_at', 'g_id', 'g_al', 'g_sc']})
+    # what a unit reports back to the server (the server's view of the session follows the compiler's only through these fields): compiler._make_query_unit copies every
+    # state component the compiled statement carries -- user schema, global schema, cached reflection (pickled), module aliases -- onto the unit, each independently of the others
+    import ast as _ast2
+    mk, _ = _repo.find_def(COMP, '_make_query_unit')
+    ufields = sorted({n.attr for n in _ast2.walk(mk) if isinstance(n, _ast2.Attribute) and isinstance(n.value, _ast2.Name) and n.value.id == 'unit'})
+    cfields = sorted({n.attr for n in _ast2.walk(mk) if isinstance(n, _ast2.Attribute) and isinstance(n.value, _ast2.Name) and n.value.id == 'comp'})
+    OPTF = ('user_schema', 'cached_reflection', 'global_schema', 'modaliases', 'config_op', 'tx_id')
+    w.refclass('QU9', {f: ('Seq[Obj]' if f == 'config_ops' else 'Opt[int]' if f == 'tx_id' else 'Opt[Obj]' if f in OPTF else 'bytes' if f in ('sql', 'status') else 'bool' if f in ('cacheable', 'is_transactional') else 'Obj') for f in ufields + ['status']}, DB, 'QueryUnit')
+    w.refclass('CQ', {f: ('Seq[Obj]' if f == 'config_ops' else 'Opt[Obj]' if f in OPTF else 'bytes' if f == 'sql' else 'bool' if f in ('cacheable', 'is_transactional') else 'Obj') for f in cfields + ['action']})
+    w.hierarchies['CQ'] = DB
+    w.classes['Ctx'].update({'cache_key': 'Obj', 'output_format': 'Obj', 'dump_restore_mode': 'bool'})
+    XM = {'_get_schema_version': dict(params={'s': 'Obj'}, returns='Obj', raises={'InvalidReferenceError': {}}),
+          'status.get_status': dict(params={'q': 'Ql'}, returns='bytes'),
+          '_extract_extensions': dict(params={'ctx': 'Ctx', 's': 'Obj'}, returns='Tuple[Obj,Obj]'),
+          '_extract_roles': dict(params={'s': 'Obj'}, returns='Obj')}
+    w.ufunc('pk', ['Obj'], 'Obj')      # pickle.dumps: a function of the pickled value
+    CARRY = lambda cls, extra='': 'isinstance(comp, dbstate.%s) and not ctx.dump_restore_mode%s' % (cls, extra)
+    ens = []
+    for cls in ('TxControlQuery', 'MigrationControlQuery', 'DDLQuery'):
+        ens.append('implies(%s and not is_none(comp.user_schema), result[0].user_schema == pk(some(comp.user_schema)) and result[1] == comp.user_schema)' % CARRY(cls))
+        ens.append('implies(%s and not is_none(comp.cached_reflection), result[0].cached_reflection == pk(some(comp.cached_reflection)))' % CARRY(cls))
+        if cls != 'MigrationControlQuery':
+            ens.append('implies(%s and not is_none(comp.global_schema), result[0].global_schema == pk(some(comp.global_schema)))' % CARRY(cls))
+        if cls != 'DDLQuery':
+            ens.append('implies(isinstance(comp, dbstate.%s) and not is_none(comp.modaliases), result[0].modaliases == comp.modaliases)' % cls)
+    w.contract(COMP, '_make_query_unit',
+        params={'ctx': 'Ctx', 'stmt_ctx': 'Ctx', 'stmt': 'Ql', 'is_script': 'bool', 'is_trailing_stmt': 'bool', 'comp': 'CQ', 'capabilities': 'Obj'},
+        returns='Tuple[QU9,Opt[Obj]]', modifies=['QU9.' + f for f in sorted(w.classes['QU9'])] + ['$alloc'],
+        ensures=ens, raises={'QueryError': {}, 'InternalServerError': {}, 'InvalidReferenceError': {}},
+        abstract={'if unit.in_type_args:': dict(assigns={}, modifies=['QU9.in_type_args_real_count']), 'if unit.warnings:': dict(assigns={}, modifies=[])},
+        hints={'ext_funcs': XM})
     return w
 
 def scenarios(tier, seed, repo_root, outdir):
